@@ -61,6 +61,20 @@ def gen_cases(ctx, n_seq, raw_per_seq):
     return cases
 
 
+def ws_cases(rng, n_seq):
+    """the same packet sequences delivered as WebSocket binary messages cut at arbitrary lengths to the three
+    real message->stream adapters (server wsServerConn, client wsClientConn, client/transport.WebSocketStreamConn)"""
+    out = []
+    for _ in range(n_seq):
+        pk = [rand_pkt(rng, 300) for _ in range(rng.choice([2, 3, 4]))]
+        approx = sum(6 + len(p["body"]) // 2 + (200 if "cmd" in p else 0) for p in pk)
+        parts = [[], [1] * approx, [rng.choice([1, 2, 3, 5, 7, 11, 64]) for _ in range(approx)],
+                 [rng.randrange(2, 40) for _ in range(approx)]]
+        for side in ("server", "client", "transport"):
+            out.append({"mode": "ws", "side": side, "pkts": pk, "cuts": rng.choice(parts)})
+    return out
+
+
 def header_straddle_cases(rng):
     """every cut offset 0..6 relative to every packet start of a 3-packet stream"""
     out = []
@@ -122,7 +136,7 @@ def case_value(c, o):
     """the universal value Corr/C01.dec_case expects: [pkts?, wire, cuts, defl, infl, json, obs]"""
     hb = bytes.fromhex
     pk = None
-    if c["mode"] == "pk":
+    if c["mode"] in ("pk", "ws"):
         pk = [[[p["compress"], p["ty"], hb(body)] for p, body in zip(c["pkts"], o["bodies"])]]
     opt = lambda x: [] if x is None else [hb(x)]
     return [pk, hb(o["wire"]), list(c["cuts"]),
@@ -142,7 +156,7 @@ def shrink(binary, case):
     cur = json.loads(json.dumps(case))
     for _ in range(40):
         changed = False
-        if cur["mode"] == "pk":
+        if cur["mode"] in ("pk", "ws"):
             for i in range(len(cur["pkts"])):
                 if len(cur["pkts"]) > 1:
                     t = dict(cur, pkts=cur["pkts"][:i] + cur["pkts"][i + 1:])
@@ -196,8 +210,9 @@ def run(ctx, only_cases=None):
         cases = load_corpus()
         cases += gen_cases(ctx, 3000 if thorough else 300, 0)
         cases += header_straddle_cases(ctx.rng)
+        cases += ws_cases(ctx.rng, 120 if thorough else 15)
     outs = vlib.run_harness(binary, cases, timeout=900)
-    wires = [o["wire"] for c, o in zip(cases, outs) if c["mode"] == "pk"][:: (2 if thorough else 6)]
+    wires = [o["wire"] for c, o in zip(cases, outs) if c["mode"] in ("pk", "ws")][:: (2 if thorough else 6)]
     raw = raw_mutations(ctx, wires, 12 if thorough else 6) if only_cases is None else []
     outs += vlib.run_harness(binary, raw, timeout=900) if raw else []
     cases += raw
@@ -212,7 +227,7 @@ def run(ctx, only_cases=None):
             if nfail <= 3:
                 small = shrink(binary, c)
                 so = vlib.run_harness(binary, [small])[0]
-                kind = "roundtrip" if c["mode"] == "pk" else "chunk-independence"
+                kind = {"pk": "roundtrip", "ws": "roundtrip-websocket-%s" % c.get("side")}.get(c["mode"], "chunk-independence")
                 ctx.violation("%s" % kind, "real StreamProcessor: %s" % so["prop_msg"],
                               {"case": small, "observed": so["obs"], "wire": so.get("wire")})
     # (ii) model vs implementation
@@ -246,7 +261,7 @@ def run(ctx, only_cases=None):
         oks = sum(1 for x in o["obs"] if x["ok"])
         if oks >= 1 and c["cuts"] and len(o["wire"]) > 12:
             nontrivial.add(h)
-    dist = {"pk": sum(1 for c in cases if c["mode"] == "pk"), "raw_malformed": len(raw), "big_go_only": len(big),
+    dist = {"pk": sum(1 for c in cases if c["mode"] == "pk"), "websocket_adapter": sum(1 for c in cases if c["mode"] == "ws"), "raw_malformed": len(raw), "big_go_only": len(big),
             "packets_total": sum(len(c.get("pkts", [])) for c in cases),
             "compressed_packets": sum(1 for c in cases for p in c.get("pkts", []) if p["compress"]),
             "json_packets": sum(1 for c in cases for p in c.get("pkts", []) if "cmd" in p),
